@@ -12,7 +12,7 @@ CHECKS = {}   # filled by vf/props modules that exist: id -> (category, text, no
 TABLE = {
     "C17": ("fault_enumeration",
             "Normalised reports of true CLI subprocesses under private throw-away HOME directories are compared with the cold report for the model content in force, over cache histories (cold, warm companion, home cache with read-only data directory, stale internal_version, package-directory pickles, model edited / reverted / shadowed, in-process second load), crash points of the cache write (file cut at 0 / header / middle / last byte; real kills of the writer after k bytes of the pickle stream, both cache locations, arch and ISA cache) and races (8 processes released together or staggered on an empty cache); a driver records cache hit/miss/write events so that a 'warm' run without a hit is inconclusive. Evidence lists distinct crash points and race outcomes.",
-            "Trusted: the driver's pickle proxy and os.access patch (vf/cli.py); report normalisation strips only the timestamp and file-name lines.",
+            "Trusted: the driver's pickle proxy, os.access patch, write barrier and what-if / library-path actions (vf/cli.py); report normalisation strips only the timestamp and file-name lines. Histories also cover the ISA description, models given by path under user-chosen file names, two models racing in one directory and a model changed in memory only.",
             "runtime monitoring with fault injection: crash-point and race enumeration over cache histories, report equality oracle",
             "C17"),
     "C18": ("exploration",
@@ -22,7 +22,7 @@ TABLE = {
             "C18"),
     "C19": ("exploration",
             "The real CLI is run under monitors on what kernel_dg sees (clock polls, sleeps, os.kill, worker start/join, path generators, the created KernelDG, the process table afterwards) on recurrence kernels with exponentially many paths below and above the multi-process threshold, on kernel_x86_long_LCD.s and on ordinary kernels, for timeouts 0/1/2/120/-1: warning iff cut short, kills imply warning, every reported cycle verified against the doubled graph and against the untimed result where feasible, throughput/CP equal to the untimed analysis, no child left, and bounded progress (still enumerating at 3*timeout+30 s = violation; later post-processing only reported).",
-            "Trusted: the stack inspection that distinguishes 'still searching' from post-processing; wall-clock margins only bound progress, they are never a verdict on their own (outer watchdog => inconclusive).",
+            "Trusted: the stack inspection that distinguishes 'still searching' (path enumeration, or a parent waiting for live workers) from post-processing; wall-clock margins only bound progress, they are never a verdict on their own (outer watchdog => inconclusive); the bounded-overhead clause is decided on the pauses the waiting parent asks for and on a virtual clock.",
             "runtime monitoring: event log of the timeout protocol (clock, kills, joins, paths) + result soundness oracle",
             "C19"),
     "C11": ("exploration",
@@ -72,7 +72,7 @@ TABLE = {
             "C05"),
     "C04": ("exploration",
             "The real KernelDG.get_critical_path() result (marked lines and per-line CP latencies) is judged on the graph it was computed on by an own longest-path computation: reported total between the longest chain with and without the last instruction's independent load, never below any single instruction latency, marked lines pairwise linked, per-line values are the chain's edge weights; workload = C03's synthetic and curated kernels plus the shipped corpus on the models of its ISA.",
-            "Trusted: vf/ref_graph.py; the graph itself is taken as observed (C03/C06 judge its edges).",
+            "Trusted: vf/ref_graph.py; which instructions are linked is taken as observed (C03/C06 judge that), the weight of every edge is checked against the producer's latencies; the dict report is also asked for first on the fresh graph.",
             "runtime monitoring: result vs own longest-path DP over the observed DAG",
             "C04"),
     "C03": ("exploration",
